@@ -62,6 +62,35 @@ Theorem C04_later_reset_refuted : forall caps sid c needs,
 Proof. intros. apply later_reset_crashes. Qed.
 Print Assumptions C04_later_reset_refuted.
 
+(* ---- (3) the closing operations ---- *)
+(* On the session that was lost (the session thread closed it) EVERY sequence of further session.close() calls, close_session()
+   calls, with-block exits (empty body, a body that raises, a body that makes a request) and requests ends, operation by
+   operation, as the property asks (`expect`): close() returns, close_session() and the end of the with-block are refused with the
+   transport error, a request is refused with it (or "capability missing" as on the live session); the object stays
+   disconnected.  For both ways the transports treat their handle in close(): kept (tls, unix), dropped behind a guard (ssh). *)
+Theorem C04_closing_refused : forall sty caps sid ops, sty <> CDrop ->
+  fst (run_cops sty ops (lost_t sty caps sid)) = map (expect caps sid) ops /\
+  e_connected (t_obj (snd (run_cops sty ops (lost_t sty caps sid)))) = false.
+Proof. exact c04_closing_refused. Qed.
+Print Assumptions C04_closing_refused.
+
+(* ... so no operation ends with a foreign exception (3) nor lets the body's own exception (5) stand for the refusal *)
+Theorem C04_closing_no_foreign_error : forall sty caps sid ops c, sty <> CDrop ->
+  In c (fst (run_cops sty ops (lost_t sty caps sid))) -> c = 0 \/ c = 1 \/ c = 2.
+Proof.
+  intros sty caps sid ops c Hs Hin. destruct (c04_closing_refused sty caps sid ops Hs) as (H & _). rewrite H in Hin.
+  apply in_map_iff in Hin. destruct Hin as (op & <- & _). apply expect_codes.
+Qed.
+Print Assumptions C04_closing_no_foreign_error.
+
+(* Why close() must keep its handle or guard its use (the statement is FALSE of a close() that drops it and uses it unguarded):
+   the first closing operation after the loss - the SECOND close() of the session - ends with a foreign exception that replaces
+   the refusal of <close-session> and, at the end of a with-block, the exception of the body. *)
+Theorem C04_closing_drop_refuted : forall caps sid op rest, (forall needs, op <> OReq needs) ->
+  exists cs, fst (run_cops CDrop (op :: rest) (lost_t CDrop caps sid)) = 3 :: cs.
+Proof. exact closing_drop_crashes. Qed.
+Print Assumptions C04_closing_drop_refuted.
+
 (* ---- non-vacuity ---- *)
 Definition app_raises (i : N) : lsn := {| l_id := i; l_role := RApp; l_removes := []; l_adds := []; l_raises := true |}.
 Definition app_leaves (i : N) : lsn := {| l_id := i; l_role := RApp; l_removes := [i]; l_adds := []; l_raises := false |}.
@@ -97,3 +126,15 @@ Example C04_end_ex_later :
       [[]; [0]; [2]; [0; 1]] =
   [(RSent, RRefused, RRefused); (RSent, RRefused, RCrash); (RSent, RRefused, RCrash); (RMissing, RMissing, RCrash)].
 Proof. vm_compute. reflexivity. Qed.
+
+(* close_session, close, with-blocks of the three bodies, a commit and a confirmed commit: on the live session (sent, then the
+   session is closed by the application: refused from there on; the body's exception leaves its block only while the session is
+   live), on the lost session under the three styles *)
+Definition ex_cops : list cop := [OWith BRaise; OCloseSession; OClose; OWith BPass; OWith (BReq [0]); OReq [0]; OReq [0; 1]; OClose].
+Example C04_end_ex_closing :
+  fst (run_cops CKeep ex_cops (live_t [0; 2] 7)) = [5; 1; 0; 1; 1; 1; 2; 0] /\
+  fst (run_cops CKeep ex_cops (lost_t CKeep [0; 2] 7)) = [1; 1; 0; 1; 1; 1; 2; 0] /\
+  fst (run_cops CGuardDrop ex_cops (lost_t CGuardDrop [0; 2] 7)) = [1; 1; 0; 1; 1; 1; 2; 0] /\
+  fst (run_cops CDrop ex_cops (lost_t CDrop [0; 2] 7)) = [3; 3; 3; 3; 3; 1; 2; 3] /\
+  fst (run_cops CKeep [OCloseSession; OCloseSession] (live_t [0; 2] 7)) = [0; 1].
+Proof. vm_compute. repeat split; reflexivity. Qed.
